@@ -11,6 +11,7 @@ import (
 	"path/filepath"
 	"strconv"
 	"strings"
+	"sync/atomic"
 	"syscall"
 	"time"
 
@@ -198,10 +199,52 @@ func OpenRecovered(dir string) (st store.Store, refused bool, err error) {
 	opts := badgerdb.DefaultOptions(dir).WithLogger(nil).WithCompactL0OnClose(false).
 		WithValueLogLoadingMode(options.FileIO).WithTableLoadingMode(options.FileIO).
 		WithMaxCacheSize(1 << 20).WithMaxTableSize(1 << 20).WithNumMemtables(1).WithNumCompactors(1)
-	st, err = badger.Open(opts)
-	if err != nil && strings.Contains(strings.ToLower(err.Error()), "truncate") {
-		refused = true
-		st, err = badger.Open(opts.WithTruncate(true))
+	// badger 2.0.3 does not release what an Open that ends in ErrTruncateNeeded has started (a dozen
+	// goroutines, memtable, caches: ~5 MB each, thousands of torn images per unit). So the refusal
+	// is not provoked every time: the image is opened WithTruncate(true) at once, and "production
+	// Open would have refused" is read off the value log having been cut during the replay. The
+	// first few torn images of every process are still opened the production way first, and the two
+	// answers must agree.
+	probe := prodOpenProbes.Add(1) <= 8
+	probedRefused := false
+	if probe {
+		st, err = badger.Open(opts)
+		if err == nil {
+			return st, false, nil
+		}
+		if !strings.Contains(strings.ToLower(err.Error()), "truncate") {
+			return nil, false, err
+		}
+		probedRefused = true
 	}
-	return st, refused, err
+	before := vlogSizes(dir)
+	st, err = badger.Open(opts.WithTruncate(true))
+	if err != nil {
+		return nil, probedRefused, err
+	}
+	for name, size := range vlogSizes(dir) {
+		if b, ok := before[name]; ok && size < b {
+			refused = true
+		}
+	}
+	if probe && probedRefused != refused {
+		st.Close()
+		panic(fmt.Sprintf("vh: production Open refused=%v but value log cut during recovery=%v for %s", probedRefused, refused, dir))
+	}
+	return st, refused, nil
+}
+
+var prodOpenProbes atomic.Int32
+
+func vlogSizes(dir string) map[string]int64 {
+	out := map[string]int64{}
+	ents, _ := os.ReadDir(dir)
+	for _, e := range ents {
+		if strings.HasSuffix(e.Name(), ".vlog") {
+			if fi, err := e.Info(); err == nil {
+				out[e.Name()] = fi.Size()
+			}
+		}
+	}
+	return out
 }
